@@ -251,6 +251,10 @@ func c08Step(refs []c08Ref) {
 	set := sets[vs.Choice("set", vs.Param("sets"))]
 	ref := refs[vs.Choice("ref", len(refs))]
 	opc := ref.op
+	// SHL needs a 512-bit intermediate: it runs in the "wide" instance (big width 520) only
+	if (opc == SHL) != (vs.Param("wide") != 0) {
+		return
+	}
 	operation := &set.table[opc]
 
 	isPush := opc >= PUSH1 && opc <= PUSH32
